@@ -13,6 +13,7 @@ Proof.
   destruct (register ss pastel_defaults) as [sty|e]; cbn [bind]; [|discriminate].
   intros H1 H2. inversion H1; inversion H2; subst. repeat split.
 Qed.
+Print Assumptions built_alike.
 Theorem added_alike : forall fa fp c fa' fp',
   is_ansi fa -> f_kind fp = FPlain -> f_styles fa = f_styles fp -> f_stack fa = f_stack fp ->
   add_style fa c = Ok fa' -> add_style fp c = Ok fp' ->
@@ -22,6 +23,7 @@ Proof.
   destruct (convert c) as [p|e]; cbn [bind]; [|discriminate].
   destruct (c_tag c); intros H1 H2; inversion H1; inversion H2; subst; cbn; rewrite ?Ek, ?Hp; repeat split; auto; congruence.
 Qed.
+Print Assumptions added_alike.
 
 (* For EVERY message without ESC and backslash - balanced or not - the four renderings either all fail alike or:
    the decorated rendering with its escape sequences stripped, the plain rendering and both tag-stripped texts are
